@@ -175,7 +175,7 @@ pub fn execute(case: &Case, opts: ExecOpts, mut instr: Box<dyn Instrument>, fata
             });
             let args = CliArgs { config_file: "/sim/config.json".into(), query_file: "/sim/queries.json".into(), chunksize: cli["chunksize"].as_i64(), newline_delimited: true };
             let pool = harness::make_pool(case.workers);
-            let run_cfg = case.run_parallelism.map(|p| serde_json::json!({"parallelism": p}));
+            let run_cfg = case.world.run_config(case.run_parallelism);
             instr.before_run(0);
             sim::set_quiet(false);
             let r = catch_unwind(AssertUnwindSafe(|| pool.install(|| command_line_runner(&args, None, run_cfg.as_ref()))));
@@ -204,7 +204,7 @@ pub fn execute(case: &Case, opts: ExecOpts, mut instr: Box<dyn Instrument>, fata
             Ok(Ok(mut app)) => {
                 instr.after_build(&mut app, false);
                 let pool = harness::make_pool(case.workers);
-                let run_cfg = case.run_parallelism.map(|p| serde_json::json!({"parallelism": p}));
+                let run_cfg = case.world.run_config(case.run_parallelism);
                 for (bi, b) in case.batches.iter().enumerate() {
                     instr.before_run(bi);
                     sim::set_quiet(false);
